@@ -56,6 +56,36 @@ fn instance(r: &mut Rng, instr: &str) -> Option<Vec<u8>> {
             ps[0] = -*H; ps[n - 1] = *H;
             if instr.starts_with('b') { bval_st(r, n, a, 7, Some(ps)).wit() } else { val_st(r, n, a, Some(ps)).wit() }
         }
+        // statement fields that coincide: the commitment is the ciphertext's own commitment (one opening for both);
+        // both ciphertexts share the commitment / the key / everything; lo and hi halves are the same ciphertext;
+        // delta and claimed commitments are the same point
+        "ctcmt-shared" => {
+            let k = kp(r); let o1 = rand_scalar(r);
+            let c = commit(&Scalar::from(a), &o1);
+            CtCmt { c, d: o1 * k.p, cm: c, r: o1, amt: a, k }.wit()
+        }
+        "ctct-shared" | "ctct-samekey" | "ctct-same" => {
+            let mut st = ctct_st(r, a, a);
+            if instr != "ctct-shared" { st.k2 = Kp { s: st.k1.s, p: st.k1.p }; st.d2 = st.r * st.k2.p; }
+            if instr != "ctct-samekey" {
+                // second ciphertext re-made with the first one's opening (recovered from nothing: make both afresh)
+                let o1 = rand_scalar(r);
+                st.c1 = commit(&Scalar::from(a), &o1); st.d1 = o1 * st.k1.p;
+                st.c2 = st.c1; st.d2 = o1 * st.k2.p; st.r = o1;
+            }
+            st.wit()
+        }
+        "bval2-samehalves" | "bval3-samehalves" => {
+            let n = if instr.contains('3') { 3 } else { 2 };
+            let lo = val_st(r, n, a, None);
+            let hi = Val { ps: lo.ps.clone(), c: lo.c, ds: lo.ds.clone(), r: lo.r, amt: lo.amt };
+            BVal { lo, hi }.wit()
+        }
+        "cap-sameclaimed" => {
+            let mut s = cap_below(r, 2, 5, 9);
+            s.rc = s.rd; s.cc = s.cd;
+            s.wit()
+        }
         // at the cap with the zero opening: the percentage commitment is max*G for everyone to see
         "cap-atzero" => cap_at_rp(r, 1_000_000, 400, 3, 7, Scalar::ZERO).wit(),
         // the permitted "no auditor" case: last key (and so the last handle) is the identity
@@ -159,7 +189,8 @@ pub fn gen_c07(o: &mut Out, tier: &str, seed: u64) {
     let sig = ["zero", "pubkey", "ctct", "ctcmt", "val2", "val3", "bval2", "bval3", "cap",
                "val2-noaud", "val3-noaud", "bval2-noaud", "bval3-noaud", "cap-at", "cap-atzero",
                "ctct-keyH", "ctct-keynegH", "ctct-ownnegH", "ctcmt-keynegH", "zero-keynegH", "pubkey-keynegH", "pubkey-keyH",
-               "val2-keynegH", "val3-keynegH", "bval2-keynegH", "bval3-keynegH"];
+               "val2-keynegH", "val3-keynegH", "bval2-keynegH", "bval3-keynegH",
+               "ctcmt-shared", "ctct-shared", "ctct-samekey", "ctct-same", "bval2-samehalves", "bval3-samehalves", "cap-sameclaimed"];
     for variant in sig {
         let instr = variant.split('-').next().unwrap_or(variant);
         let special = variant != instr;
